@@ -5,6 +5,8 @@ import (
 	"fmt"
 	"time"
 
+	"simrt"
+
 	"github.com/jwhited/corebgp"
 )
 
@@ -23,6 +25,17 @@ type ChaosOpts struct {
 	NoServe        bool // the caller starts Serve itself
 	AddInTasks     bool // every AddPeer runs in its own task (so its goroutines have a private ancestor)
 	OnlyReAdd      bool // the churn task only re-adds deleted peers
+	FreeWriters    bool // goroutines of the application that call WriteUpdate on their own schedule
+}
+
+// WriterRec is one free-running application goroutine that uses a session's writer.
+type WriterRec struct {
+	P      *PeerH
+	Task   *simrt.Task
+	InCall bool
+	Since  time.Duration
+	Calls  int
+	Errs   int
 }
 
 type ChaosPeer struct {
@@ -38,11 +51,12 @@ type ChaosPeer struct {
 }
 
 type Chaos struct {
-	w      *World
-	E      *Env
-	Opts   ChaosOpts
-	Peers  []*ChaosPeer
-	Ending bool
+	w       *World
+	E       *Env
+	Opts    ChaosOpts
+	Peers   []*ChaosPeer
+	Ending  bool
+	Writers []*WriterRec
 	// UpdTags maps a tag to the connection the remote sent it on
 	NConnScripts int
 }
@@ -65,6 +79,30 @@ func (ch *Chaos) newIncarnation(cp *ChaosPeer) *PeerH {
 		}
 		for i, n := 0, w.Draw(3, "estwrites"); i < n; i++ {
 			s.Writer.WriteUpdate([]byte{0xEE, 0, 0, byte(i)})
+		}
+		if ch.Opts.FreeWriters && w.Chance(1, 3, "free-writer") {
+			// an application goroutine that keeps using this session's writer on its own
+			// schedule, also while (and after) the session is torn down: every call
+			// must return
+			wr, rec := s.Writer, &WriterRec{P: p}
+			ch.Writers = append(ch.Writers, rec)
+			w.Fault("free-writer")
+			rec.Task = w.S.Spawn(fmt.Sprintf("fw%d", len(ch.Writers)), "free-writer", func() {
+				for i, n := 0, 1+w.Draw(16, "fw-n"); i < n && rec.Errs < 2; i++ {
+					if w.Draw(3, "fw-pace") == 0 {
+						w.Sleep(time.Duration(w.Range(1, 4000, "fw-ms")) * time.Millisecond)
+					} else {
+						w.Yield("free-writer")
+					}
+					rec.InCall, rec.Since = true, w.Now()
+					err := wr.WriteUpdate([]byte{0xEF, 0, 0, byte(i)})
+					rec.InCall = false
+					rec.Calls++
+					if err != nil {
+						rec.Errs++
+					}
+				}
+			})
 		}
 	}
 	p.Plug.UpdFn = func(pl *Plug, s *Session, idx int, b []byte) *corebgp.Notification {
@@ -457,4 +495,15 @@ func (ch *Chaos) peerBusy(cp *ChaosPeer) bool {
 		}
 	}
 	return false
+}
+
+// StuckWriter returns a free-running writer that is still inside WriteUpdate
+// (for peer only, or for any peer when only is nil), or nil.
+func (ch *Chaos) StuckWriter(only *PeerH) *WriterRec {
+	for _, r := range ch.Writers {
+		if r.InCall && (only == nil || r.P == only) {
+			return r
+		}
+	}
+	return nil
 }
